@@ -21,22 +21,16 @@ use vx::common::{CheckCtx, CheckResult, Tier};
 
 pub enum Sut {
     P(PctScheduler),
-    M(crate::mutants::PctCopy),
 }
 
 impl Sut {
     pub fn new(seed: u64, depth: usize, iters: usize) -> Sut {
-        let m = crate::mutants::which();
-        if (300..400).contains(&m) {
-            return Sut::M(crate::mutants::PctCopy::new(m, seed, depth, iters));
-        }
         Sut::P(PctScheduler::new_from_seed(seed, depth, iters))
     }
     /// read-only view of the internals through the derived Debug implementation
     pub fn snapshot(&self) -> Option<Snapshot> {
         let s = match self {
             Sut::P(p) => format!("{:?}", p),
-            Sut::M(p) => format!("{:?}", p),
         };
         parse_snapshot(&s)
     }
@@ -46,19 +40,16 @@ impl Scheduler for Sut {
     fn new_execution(&mut self) -> Option<Schedule> {
         match self {
             Sut::P(s) => s.new_execution(),
-            Sut::M(s) => s.new_execution(),
         }
     }
     fn next_task(&mut self, r: &[&Task], c: Option<TaskId>, y: bool) -> Option<TaskId> {
         match self {
             Sut::P(s) => s.next_task(r, c, y),
-            Sut::M(s) => s.next_task(r, c, y),
         }
     }
     fn next_u64(&mut self) -> u64 {
         match self {
             Sut::P(s) => s.next_u64(),
-            Sut::M(s) => s.next_u64(),
         }
     }
 }
@@ -143,7 +134,7 @@ pub fn pct_checked<'u>(
         };
         st.executions += 1;
         let mut model: Option<PctModel> = None;
-        if it >= 1 && std::env::var("VX_NOSNAP").is_err() {
+        if it >= 1 {
             let snap = s.snapshot().ok_or("MACHINERY cannot parse the scheduler's Debug output")?;
             st.snapshots += 1;
             if snap.max_steps != est_k {
@@ -703,7 +694,12 @@ fn probability(s0: u64, n: u64, nthreads: usize) -> ProbOut {
             }
             out.samples += samples;
             if samples == 0 {
-                out.machinery.push(format!("bug program {} depth {}: the scheduler's estimate never equals the settled value {} predicted by the model in {} iterations x {} seeds", prog.name(), d, pi.k, PROB_ITERS, n));
+                out.problems.push((
+                    format!("pct-estimate-never-settles:{}:d{}", prog.name(), d),
+                    format!("PctScheduler depth {} on {}: in {} seeds x {} iterations the scheduler's estimate of k never equals {}, the value the reference model settles at", d, prog.name(), n, PROB_ITERS, pi.k),
+                    json!({"kind":"pct-frequency","prog":prog.to_json(),"depth":d,"s0":s0.to_string(),"n":n}),
+                ));
+                continue;
             }
             // every (order, change-point set) is realised, uniformly
             let mut worst_cell_z = 0f64;
@@ -1030,7 +1026,7 @@ pub fn run(ctx: &CheckCtx) -> CheckResult {
     let mut total = PStats::default();
     let mut exhaustive = true;
     let mut fam_rows: Vec<Value> = Vec::new();
-    let mut push_problems = |res: &mut CheckResult, ps: Problems| {
+    let push_problems = |res: &mut CheckResult, ps: Problems| {
         for (k, w, r) in ps.into_iter().take(3) {
             if w.contains("MACHINERY") {
                 res.machinery_errors.push(w);
@@ -1098,7 +1094,7 @@ pub fn run(ctx: &CheckCtx) -> CheckResult {
     phase("F2 all trees", &mut t_phase);
 
     // probability
-    let np = if thorough { n / 4 } else { n / 8 };
+    let np = n / 8;
     let pr = probability(s0, np, nthreads);
     phase("probability bound (model enumeration + seed interval)", &mut t_phase);
     for m in &pr.machinery {
